@@ -245,6 +245,62 @@ theorem authority_abs (l : Layout) (nA nB : Name) (hne : nA ≠ nB) (s : Side) (
         authority_two_alone nA nB _ _ hne hs _ (by simp)]
       simp [absVerdict]
 
+/-! ### the set of clients -/
+
+theorem mem_setInsert {α : Type} [BEq α] [LawfulBEq α] (l : List α) (x y : α) : y ∈ setInsert l x ↔ y = x ∨ y ∈ l := by
+  unfold setInsert
+  split
+  · rename_i h
+    have hx : x ∈ l := List.contains_iff_mem.1 h
+    constructor
+    · exact Or.inr
+    · rintro (rfl | h') <;> assumption
+  · simp
+
+theorem mem_setErase {α : Type} [BEq α] [LawfulBEq α] (l : List α) (x y : α) : y ∈ setErase l x ↔ y ∈ l ∧ y ≠ x := by
+  simp [setErase, List.mem_filter]
+
+/-! ### sequences of connection events on one Endpoint object -/
+
+/-- The client set after a sequence of `(connection number, attach?)` events. -/
+def applyLinks (cs : List Nat) (evs : List (Nat × Bool)) : List Nat :=
+  evs.foldl (fun cs e => if e.2 then setInsert cs e.1 else setErase cs e.1) cs
+
+/-- Is connection `id` open after the events (`init`: it was open before them)?  Its last event decides. -/
+def openAfter (init : Bool) (id : Nat) (evs : List (Nat × Bool)) : Bool :=
+  evs.foldl (fun b e => if e.1 == id then e.2 else b) init
+
+theorem mem_applyLinks : ∀ (evs : List (Nat × Bool)) (cs : List Nat) (id : Nat),
+    id ∈ applyLinks cs evs ↔ openAfter (decide (id ∈ cs)) id evs = true
+  | [], cs, id => by simp [applyLinks, openAfter]
+  | e :: evs, cs, id => by
+    have ih := mem_applyLinks evs (if e.2 then setInsert cs e.1 else setErase cs e.1) id
+    simp only [applyLinks, openAfter, List.foldl_cons] at ih ⊢
+    rw [ih]
+    have : decide (id ∈ (if e.2 then setInsert cs e.1 else setErase cs e.1)) = (if e.1 == id then e.2 else decide (id ∈ cs)) := by
+      cases he : e.2
+      · by_cases hid : e.1 = id
+        · simp [mem_setErase, hid]
+        · have : id ≠ e.1 := fun h => hid h.symm
+          simp [mem_setErase, hid, this]
+      · by_cases hid : e.1 = id
+        · simp [mem_setInsert, hid]
+        · have : id ≠ e.1 := fun h => hid h.symm
+          simp [mem_setInsert, hid, this]
+    rw [this]
+
+/-- The abstraction of the two-member system ("sees the other member") is `Endpoint::GetConnected()` on the set of clients
+    attached to the other member's Endpoint object. -/
+theorem connectedTo_map (other : Name) : ∀ (conns : List Nat) (e : Name),
+    connectedTo (conns.map (fun i => (other, i))) e = (!conns.isEmpty && e == other)
+  | [], _ => by simp [connectedTo]
+  | i :: is, e => by
+    have ih := connectedTo_map other is e
+    simp only [connectedTo, List.map_cons, List.any_cons] at ih ⊢
+    rw [ih]
+    have hc : (other == e) = (e == other) := Bool.beq_comm
+    cases is <;> simp [hc]
+
 /-! ### SetAuthority -/
 
 theorem setAuthority_paused (o : Obj) (b : Bool) : (setAuthority o b).paused = !b := by
@@ -295,6 +351,19 @@ theorem applyVerdict_bound (c : ObjCfg) (o : Obj) (v : Verdict) (n : Nat) (h : o
 theorem fresh_work (c : ObjCfg) : (fresh c).execs = 0 ∧ (fresh c).stash = 0 := by
   unfold fresh; split <;> simp
 
+theorem freshLike_restart (c : ObjCfg) (old : Obj) (keep : Bool) : freshLike c (restart c old keep) = true := by
+  simp [freshLike, restart, (fresh_work c).1]
+
+theorem relHalf_sees {sh : SpecHalf} {h : Half} (hr : sh.conns = h.conns) : sh.sees = h.sees := by
+  simp [SpecHalf.sees, Half.sees, hr]
+
+theorem mode_kept {p : Prop} [Decidable p] {m x : Mode} (h : (if p then m else Mode.unknown) = x) (hx : x ≠ .unknown) :
+    m = x := by
+  split at h
+  · exact h
+  · exact absurd h.symm hx
+
+
 /-- What a notification request does to an object, as far as the property is concerned. -/
 theorem requestObj_props (u : Bool) (c : ObjCfg) (o : Obj) :
     sameAuth o (requestObj u c o) = true ∧ o.execs ≤ (requestObj u c o).execs ∧
@@ -344,7 +413,7 @@ theorem checkWork_ok (c : ObjCfg) (sh sh' : SpecHalf) (silent : Bool) (o o' : Ob
 
 /-- How the specification's bookkeeping relates to one side of the model. -/
 structure RelHalf (c : ObjCfg) (ow : Bool) (sh : SpecHalf) (h : Half) : Prop where
-  sees : sh.sees = h.sees
+  conns : sh.conns = h.conns
   start : sh.start = h.start
   prev : sh.prev = h.obj
   paired : touched c = true → sh.mode = .paired → h.obj.paused = !ow
@@ -372,7 +441,7 @@ theorem work_step (c : ObjCfg) (ow : Bool) (sh : SpecHalf) (h : Half) (hr : RelH
     RelHalf c ow { sh with prev := o', asked := sh.asked + k } { h with obj := o' } := by
   simp only [sameAuth, Bool.and_eq_true, beq_iff_eq] at hauth
   obtain ⟨⟨hp, _⟩, _⟩ := hauth
-  refine ⟨hr.sees, hr.start, rfl, ?_, ?_, ?_, hb⟩
+  refine ⟨hr.conns, hr.start, rfl, ?_, ?_, ?_, hb⟩
   · intro ht hm; rw [hp]; exact hr.paired ht hm
   · intro ht hm; rw [hp]; exact hr.alone ht hm
   · intro ha hro; rw [hp]; exact hr.everywhere ha hro
@@ -407,17 +476,26 @@ theorem half_step (l : Layout) (nA nB : Name) (hne : nA ≠ nB) (c : ObjCfg) (s 
     simp only [checkOwn, hw, hprev]
     cases hk : c.kind <;> cases ha : c.active <;> cases hp : h.obj.paused <;> simp
     exact p6 hk ha hp
-  | boot s' start =>
+  | boot s' start keep =>
     have hw := fresh_work c
-    refine ⟨by simp [stepHalf, checkOwn], ⟨rfl, rfl, rfl, ?_, ?_, ?_, ?_⟩⟩
+    refine ⟨by simp [stepHalf, checkOwn, freshLike_restart], ⟨rfl, rfl, rfl, ?_, ?_, ?_, ?_⟩⟩
     · intro _ hm; simp [specHalfNext] at hm
     · intro _ hm; simp [specHalfNext] at hm
-    · intro ha hr; exact fresh_paused_runEverywhere c ha hr
-    · simp [stepHalf, specHalfNext, hw.1, hw.2]
-  | link s' up =>
-    refine ⟨by simp [stepHalf, checkOwn, hprev], ⟨rfl, hstart, rfl, ?_, ?_, ?_, hbound⟩⟩
-    · intro _ hm; simp [specHalfNext] at hm
-    · intro _ hm; simp [specHalfNext] at hm
+    · intro ha hr
+      have := fresh_paused_runEverywhere c ha hr
+      simpa [stepHalf, restart] using this
+    · cases keep
+      · simp [stepHalf, specHalfNext, restart, hw.1]
+      · simp only [stepHalf, specHalfNext, restart, hw.1, hprev, if_true]
+        omega
+  | link s' id up =>
+    refine ⟨by simp [stepHalf, checkOwn, hprev], ⟨by simp [stepHalf, specHalfNext, hsees], hstart, rfl, ?_, ?_, ?_, hbound⟩⟩
+    · intro ht hm
+      simp only [specHalfNext] at hm
+      exact hpaired ht (mode_kept hm (by decide))
+    · intro ht hm
+      simp only [specHalfNext] at hm
+      exact halone ht (mode_kept hm (by decide))
     · exact hev
   | idle s' =>
     refine ⟨by simp [stepHalf, checkOwn, hprev], ⟨hsees, hstart, rfl, ?_, ?_, ?_, hbound⟩⟩
@@ -432,17 +510,17 @@ theorem half_step (l : Layout) (nA nB : Name) (hne : nA ≠ nB) (c : ObjCfg) (s 
       | pair =>
         cases hs : h.sees with
         | true =>
-          have hss : sh.sees = true := by rw [hsees, hs]
-          refine ⟨?_, ⟨hss, hstart, rfl, ?_, ?_, ?_, applyVerdict_bound _ _ _ _ hbound⟩⟩
+          have hss : sh.sees = true := by rw [relHalf_sees hsees, hs]
+          refine ⟨?_, ⟨hsees, hstart, rfl, ?_, ?_, ?_, applyVerdict_bound _ _ _ _ hbound⟩⟩
           · simp [checkOwn, specHalfNext, applyVerdict, ht, absVerdict, hss, ← hprev, deltaOk_setAuthority]
           · intro _ _; simp [applyVerdict, ht, absVerdict, setAuthority_paused]
           · intro _ hm; simp [specHalfNext, hss] at hm
           · intro ha hr; simp [touched, ha, hr] at ht
         | false =>
-          have hss : sh.sees = false := by rw [hsees, hs]
+          have hss : sh.sees = false := by rw [relHalf_sees hsees, hs]
           by_cases hg : inGrace h.start now = true
           · have hg' : inGrace sh.start now = true := by rw [hstart]; exact hg
-            refine ⟨?_, ⟨hss, hstart, rfl, ?_, ?_, ?_, applyVerdict_bound _ _ _ _ hbound⟩⟩
+            refine ⟨?_, ⟨hsees, hstart, rfl, ?_, ?_, ?_, applyVerdict_bound _ _ _ _ hbound⟩⟩
             · simp [checkOwn, specHalfNext, applyVerdict, ht, absVerdict, hss, hg, hg', ← hprev, deltaOk_refl]
               intro hm
               have := halone ht hm
@@ -457,7 +535,7 @@ theorem half_step (l : Layout) (nA nB : Name) (hne : nA ≠ nB) (c : ObjCfg) (s 
             · intro ha hr; simp [touched, ha, hr] at ht
           · have hgf : inGrace h.start now = false := by simpa using hg
             have hg' : inGrace sh.start now = false := by rw [hstart]; exact hgf
-            refine ⟨?_, ⟨hss, hstart, rfl, ?_, ?_, ?_, applyVerdict_bound _ _ _ _ hbound⟩⟩
+            refine ⟨?_, ⟨hsees, hstart, rfl, ?_, ?_, ?_, applyVerdict_bound _ _ _ _ hbound⟩⟩
             · simp [checkOwn, specHalfNext, applyVerdict, ht, absVerdict, hss, hgf, hg', ← hprev,
                 deltaOk_setAuthority, setAuthority_paused]
             · intro _ hm; simp [specHalfNext, hss, hg'] at hm
